@@ -36,6 +36,7 @@ def observe(text, ro_text=None):
     object is then merged (twice) into that running order and read again: what a message exposes does not
     depend on whether it has been merged."""
     from . import impl
+    impl.apply_cfg(impl.cfg_for(text))
     mo = impl.load(text)
     out = read_object(mo)
     if ro_text is not None:
